@@ -143,6 +143,8 @@ def decide(prop, tier='quick', seed=0, units=None, jobs=8, quiet=False):
                 if prop in c['tags'] and not c['known'] and len(samples) < 6 and c['kind'] == 'ensures':
                     samples.append(dict(obligation=c['id'], function=f['qual'], clause=c['text']))
         for fl in r.failures:
+            if prop not in fl.props and any(x['function'] == fl.fn and x['unit'] == r.unit for x in fn_list):
+                n_obl -= 1      # a failed obligation of this function that is tagged for another property only: not ours to count
             if prop in fl.props:
                 # a main-variant obligation listed as a known finding for this property (matched by obligation id, never by property alone)
                 hit = None
@@ -207,6 +209,7 @@ def decide(prop, tier='quick', seed=0, units=None, jobs=8, quiet=False):
         json.dump(payload, open(path, 'w'), indent=1)
         lines.append('VIOLATION property=%s replay=%s%s' % (prop, path, suffix))
         rc = 1
+    kseen_obl = set(fl.oid for _r, fl, _k in known_hits if not fl.known)   # red main-variant obligations that are recorded known findings
     kseen = set()
     for r, fl, k in known_hits:
         if k['id'] in kseen:
@@ -250,11 +253,12 @@ def decide(prop, tier='quick', seed=0, units=None, jobs=8, quiet=False):
     ev = dict(
         property_id=prop, tier=tier, seed=int(seed or 0), level='proof',
         coverage=dict(
-            obligations=n_obl, discharged=max(0, n_obl - n_failed),
+            obligations=max(0, n_obl - len(kseen_obl)), discharged=max(0, n_obl - len(kseen_obl) - n_failed),
+            known_finding_obligations_excluded=sorted(kseen_obl),
             checker_cmd='verus gen/<unit>.rs --rlimit 20 --expand-errors --multiple-errors 20 --output-json --time --log air-final   (units: %s)' % ', '.join(r.unit for r in results),
             trusted_base=FIXED_TRUSTED,
             obligations_by_kind=by_kind,
-            rule='an obligation is one `(location ...)` proof goal in the AIR Verus generates for a function under contract that carries this property (postcondition clause per exit, precondition per call site, invariant entry/preservation, assertion, arithmetic/bounds safety check); counted from --log air-final on this run',
+            rule='an obligation is one `(location ...)` proof goal in the AIR Verus generates for a function under contract that carries this property (postcondition clause per exit, precondition per call site, invariant entry/preservation, assertion, arithmetic/bounds safety check); counted from --log air-final on this run; obligations that are red and recorded as known findings are NOT counted here, they are listed under known_finding_obligations_excluded / known_findings_hit',
             functions_under_contract=fn_list,
             back_end='Verus %s / Z3' % (results[0].verus.get('version', '?') if results else '?'),
             solver_ms_total=smt_ms,
